@@ -1272,6 +1272,6 @@ func init() {
 		Run:            c19Run,
 		Replay:         c19Replay,
 		QuickBudget:    150 * time.Second,
-		ThoroughBudget: 15 * time.Minute,
+		ThoroughBudget: 8 * time.Minute,
 	})
 }
